@@ -42,6 +42,8 @@ type c19Case struct {
 	DefaultFilter bool `json:"defaultFilter,omitempty"`
 	// Siblings: unrelated, differently configured analytics objects of the same process (history).
 	Siblings []c19Sibling `json:"siblings,omitempty"`
+	// NoModel: the case is judged by the direct predicates only (placeholder-shaped keys, c19PhKeyGen)
+	NoModel bool `json:"noModel,omitempty"`
 }
 
 // c19Sibling is one family of differently configured objects, each from its own builder call: a
@@ -59,13 +61,13 @@ type c19Sibling struct {
 
 func init() {
 	register(&Prop{ID: "C19", Run: c19Run,
-		Rule: "overlay source documents of 1-3 layers (built with Put, some layers with Populate) and 0-2 reference overlays over a prefix-free pool of 9 leaf paths (incl. nested containers and list items); values are typed scalars or templates mentioning pool keys that come later in a fixed order (acyclic), unknown keys, defaults (also nested), repeated mentions, the ${k:def} whole-value form, unterminated tails and (rarely) nested keys; key filters all/none/prefix/not/in (half of the all-cases leave the filter to the builders' default instead of setting it); impact keys with repeats and unknown keys; HISTORY: half of the cases have 1-2 sibling families of differently configured objects from their own builder calls (placeholder resolver with another key filter and, 2 in 5, another placeholder matcher never/always/contains-$; impact analysis with that filter; dependency resolver with, 3 in 10, another matcher never/substring), built and (3 in 4) run on the source document before the objects under test are built, or between their construction and their run; the objects under test are run again after everything else (even-numbered repeated runs), and sibling placeholder resolvers with the default matcher are held to the FailedKeys clause for their own filter. Kind history (c19_hist.go): ONE set of long-lived overlay documents and ONE family of long-lived analytics objects go through analyse - edit - analyse ... (1-4 rounds of 1-3 edits): every analysis (the three reports and OverlayDocument.Search per pool key) is held to the clauses on the content the documents have at that moment, to the reports of fresh objects (dependency resolver from the builder instead of DefaultDependencyResolver) on freshly built documents of the same content, and to the model; before every edit the documents are read through Search / Merged / Flatten / LookupAny; each edit changes one pool leaf (7 in 10 at depth >= 2 or inside a list) along a named route - OverlayDocument.Put / Populate / Add (the added container is kept and later edited: held), the nearest composite handed out by Lookup or to a Walk visitor (AddValue, list Set / MustSet / Append / Clear, Remove), the layer root (AddValueAt / RemoveAt) - in a source or a reference document; 1 in 6 histories pass the source document object also as first reference. VALUE RANGE (c19_wide.go; kind reports): half of the cases take their pool (up to 12 prefix-free leaf paths, in a shuffled order - values mention keys later in the order of their case) from families of confusable spellings: letter-case twins of a leaf name or of a path segment (maxConn / maxconn, d.e / D.e, l[0] / L[0]), characters whose case folds onto ASCII letters (U+017F, U+212A), leading / trailing / inner white space (space, tab, NBSP, line break), Unicode composition twins, supplementary-plane characters, U+FFFD, characters that look like syntax, digit strings around 2^63 / 2^64, boolean / null spellings, names that are prefixes of each other; the family members that are not in the pool serve as unknown keys (mentioned, requested from impact analysis); filters take their arguments from the case's pool (prefix filter: a prefix of a pool key cut at a character boundary, 1 in 4 upper-cased); the text between placeholders and the plain values include tab, NBSP, supplementary-plane characters, U+FFFD, '$', '{', '}', ':', a backslash and long digit strings; one wide case in three names its source layers from families of confusable layer names (case / white-space twins, unclean paths, the empty name). Keys are the same exactly when they are the same string. Non-trivial: at least one value of the source or a reference mentions a merged key (history: two analyses with an edit between). Distinct = distinct canonical case JSON.",
+		Rule: "overlay source documents of 1-3 layers (built with Put, some layers with Populate) and 0-2 reference overlays over a prefix-free pool of 9 leaf paths (incl. nested containers and list items); values are typed scalars or templates mentioning pool keys that come later in a fixed order (acyclic), unknown keys, defaults (also nested), repeated mentions, the ${k:def} whole-value form, unterminated tails and (rarely) nested keys; key filters all/none/prefix/not/in (half of the all-cases leave the filter to the builders' default instead of setting it); impact keys with repeats and unknown keys; HISTORY: half of the cases have 1-2 sibling families of differently configured objects from their own builder calls (placeholder resolver with another key filter and, 2 in 5, another placeholder matcher never/always/contains-$; impact analysis with that filter; dependency resolver with, 3 in 10, another matcher never/substring), built and (3 in 4) run on the source document before the objects under test are built, or between their construction and their run; the objects under test are run again after everything else (even-numbered repeated runs), and sibling placeholder resolvers with the default matcher are held to the FailedKeys clause for their own filter. Kind history (c19_hist.go): ONE set of long-lived overlay documents and ONE family of long-lived analytics objects go through analyse - edit - analyse ... (1-4 rounds of 1-3 edits): every analysis (the three reports and OverlayDocument.Search per pool key) is held to the clauses on the content the documents have at that moment, to the reports of fresh objects (dependency resolver from the builder instead of DefaultDependencyResolver) on freshly built documents of the same content, and to the model; before every edit the documents are read through Search / Merged / Flatten / LookupAny; each edit changes one pool leaf (7 in 10 at depth >= 2 or inside a list) along a named route - OverlayDocument.Put / Populate / Add (the added container is kept and later edited: held), the nearest composite handed out by Lookup or to a Walk visitor (AddValue, list Set / MustSet / Append / Clear, Remove), the layer root (AddValueAt / RemoveAt) - in a source or a reference document; 1 in 6 histories pass the source document object also as first reference. VALUE RANGE (c19_wide.go; kind reports): half of the cases take their pool (up to 12 prefix-free leaf paths, in a shuffled order - values mention keys later in the order of their case) from families of confusable spellings: letter-case twins of a leaf name or of a path segment (maxConn / maxconn, d.e / D.e, l[0] / L[0]), characters whose case folds onto ASCII letters (U+017F, U+212A), leading / trailing / inner white space (space, tab, NBSP, line break), Unicode composition twins, supplementary-plane characters, U+FFFD, characters that look like syntax, digit strings around 2^63 / 2^64, boolean / null spellings, names that are prefixes of each other; the family members that are not in the pool serve as unknown keys (mentioned, requested from impact analysis); filters take their arguments from the case's pool (prefix filter: a prefix of a pool key cut at a character boundary, 1 in 4 upper-cased); the text between placeholders and the plain values include tab, NBSP, supplementary-plane characters, U+FFFD, '$', '{', '}', ':', a backslash and long digit strings; one case in twelve (c19LongGen) holds lists of 11-14 items, items of a list of containers at indices below and above ten, and leaf names ending in one- and two-digit numbers (k2, k9, k10, k11) - keys equal up to a run of digits of different length, on which the order of the key strings (that is what sorted means) differs from numeric / document / shorter-first orders; one case in eight (c19PhKeyGen, direct predicates only) has keys that LOOK like values - ${x}, ${a:b}, pre-${x}, the very text another key holds as its value, a key equal to its own value - next to 1-2 plain keys that are mostly absent, so that placeholder-bearing values stay unresolved: a report about keys must not confuse key names with value texts, whatever order the map is visited in; a final block of cases (classic pool) holds values whose first opening ${ is never closed and is followed by a complete placeholder, mostly of an unknown key (a forgotten closing brace: ${a:${b}, ${a ${b}, x ${host:${port}/y, ${${${b}}); one wide case in three names its source layers from families of confusable layer names (case / white-space twins, unclean paths, the empty name). Keys are the same exactly when they are the same string. Non-trivial: at least one value of the source or a reference mentions a merged key (history: two analyses with an edit between). Distinct = distinct canonical case JSON.",
 		Assumptions: []string{
 			"the overlay itself (Put/Populate/Merged/Flatten/Layers) is not modelled here: the model functions take Merged().Flatten() and each layer's Flatten() as inputs, computed by the harness from the real overlay document (C06/C02 cover the overlay and flattening)",
 			"values mention leaf keys of the merged document and unknown keys only: a mention of a container/list position makes the PlaceholderResolver panic (v.(dom.Leaf)) and is outside the property's quantifier (DESIGN section 2); mentions are acyclic (a true cycle panics by contract)",
 			"the public DependencyResolverBuilder offers no key filter, so the dependency report is checked with the built-in matchAll; key filters are exercised on the placeholder report (impact analysis stores its filter but never consults it)",
 			"coordinate lists are compared as multisets (sorted by layer, path)",
-			"a key (path segment) contains none of the characters the path / placeholder syntax is made of: '.', '[', ']', ':', \"${\", '}' - nor ',' (separator of this harness's own `in` filter argument); every other character is in the domain",
+			"a key (path segment) contains none of the characters the path syntax is made of: '.', '[', ']' - nor ',' (separator of this harness's own `in` filter argument); the placeholder syntax (\"${\", '}', ':') occurs in keys only in the placeholder-shaped-key cases, whose keys nobody mentions and which are judged by the direct predicates alone; every other character is in the domain",
 			"independence from process history is probed by at most 2 sibling families per case; every case first builds one family of objects with every option set explicitly to the documented default, so its outcome depends on its own history only and the recorded case replays in a fresh process; sibling reports are checked only for the default placeholder matcher"}})
 	evals["C19"] = c19Eval
 	shrinkers["C19"] = shrinkJSON
@@ -79,6 +81,9 @@ var c19Unknown = []string{"nope", "u1", "zz.q"}
 func c19Value(r *rand.Rand, idx int) W { return c19ClassicGen().value(r, idx) }
 
 func (g *c19Gen) value(r *rand.Rand, idx int) W {
+	if g.phKeys {
+		return g.phValue(r, idx)
+	}
 	c19Pool, c19Unknown := g.pool, g.unknown
 	later := c19Pool[idx+1:]
 	if len(later) == 0 || r.Intn(20) < 7 {
@@ -215,11 +220,17 @@ func c19Run(c *Ctx) {
 		if r.Intn(2) == 0 {
 			g = c19WideGen(r)
 		}
+		if i%12 == 5 {
+			g = c19LongGen(r) // keys whose string order is not their numeric / document order
+		}
+		if i%8 == 3 {
+			g = c19PhKeyGen(r) // keys that look like values
+		}
 		srcNames, refNames := []string{"base", "env", "local"}, []string{"r1", "r2"}
 		if g.wide {
 			srcNames = c19LayerNames(r, srcNames)
 		}
-		cs := c19Case{Docs: []c19Doc{g.doc(r, srcNames, 3)}}
+		cs := c19Case{Docs: []c19Doc{g.doc(r, srcNames, 3)}, NoModel: g.phKeys}
 		for j := r.Intn(3); j > 0; j-- {
 			names := refNames
 			if r.Intn(4) == 0 {
@@ -254,6 +265,65 @@ func c19Run(c *Ctx) {
 		c.Do("reports", cs)
 	}
 	c19RunHist(c)
+	// an opening "${" that is never closed but is FOLLOWED by a complete placeholder (a forgotten brace before the next
+	// placeholder or inside a default: "${a:${b}", "${a ${b}", "x ${host:${port}/y"): the value has a placeholder,
+	// and when that one stays unresolved (unknown key) the value is left unchanged - a failed key.  (Generated after
+	// everything else, so the cases above are the same with and without this block.)
+	for i := 0; i < c.N(120); i++ {
+		c.Tick()
+		g := c19ClassicGen()
+		cs := c19Case{Docs: []c19Doc{g.doc(r, []string{"base", "env", "local"}, 2)}, Filter: c19Filter{Kind: "all"}, Keys: []string{}, DefaultFilter: r.Intn(2) == 0}
+		if r.Intn(3) == 0 {
+			cs.Filter, cs.DefaultFilter = g.filter(r), false
+		}
+		pos := map[string]int{}
+		for j, k := range g.pool {
+			pos[k] = j
+		}
+		n := 0
+		for li := range cs.Docs[0].Layers {
+			puts := cs.Docs[0].Layers[li].Puts
+			for pi := range puts {
+				if n == 0 || r.Intn(3) == 0 {
+					puts[pi].V = scalarWire(g.swallowed(r, pos[puts[pi].Path]))
+					n++
+				}
+			}
+		}
+		if n == 0 {
+			l := &cs.Docs[0].Layers[0]
+			l.Puts = append(l.Puts, c19Put{Path: g.pool[0], V: scalarWire(g.swallowed(r, 0))})
+		}
+		c.Do("reports", cs)
+	}
+}
+
+// swallowed: a template whose first opening is never closed and is followed by a complete placeholder.
+func (g *c19Gen) swallowed(r *rand.Rand, idx int) string {
+	later := g.pool[idx+1:]
+	key := func(unknown int) string { // unknown in 3: how often an unknown key
+		if len(later) == 0 || r.Intn(3) < unknown {
+			return pick(r, g.unknown)
+		}
+		return pick(r, later)
+	}
+	k1, k2 := key(1), key(2)
+	text := func() string { return pick(r, g.texts) }
+	switch r.Intn(7) {
+	case 0:
+		return "${" + k1 + ":${" + k2 + "}"
+	case 1:
+		return "${" + k1 + " ${" + k2 + "}"
+	case 2:
+		return text() + " ${" + k1 + ":${" + k2 + "}/" + text()
+	case 3:
+		return "${${" + k2 + "}"
+	case 4:
+		return "${${${" + k2 + "}}"
+	case 5:
+		return "${" + k1 + text() + "${" + k2 + ":" + text() + "}"
+	}
+	return "${" + k1 + "${" + k2 + "}" + text() + "${" + key(2) + "}"
 }
 
 // ---------------------------------------------------------------- building and observing
@@ -738,6 +808,11 @@ func c19Eval(c *Ctx, kind string, raw []byte) {
 	c.Direct("20 repeated runs give equal reports", same, map[string]any{"first": json.RawMessage(first), "other": json.RawMessage(other)})
 
 	// --- correspondence with the model
+	if cs.NoModel {
+		// placeholder-shaped keys: since the model mirrors the repaired membership test (D32, /repo f8018cb) these
+		// cases are compared with it like all others; the flag only feeds the distribution
+		c.Dist("placeholder-shaped keys")
+	}
 	var docsW []any
 	for _, d := range flats {
 		var ls []any
